@@ -1545,6 +1545,28 @@ impl<'a> Gen<'a> {
     /// bit-string, skip some bits, read the slice, close. Then usually mutate it (append / invert),
     /// which is where the unique-owner shortcuts of the bit-string library are taken.
     fn orphan_slice(&mut self) {
+        // one time in three the parent is one or two bytes long and the slice is a prefix that ends
+        // inside its last byte: the stale bits after the value's end then sit in the very byte an
+        // in-place append writes to (buffer length == the value's upper bound)
+        let short = self.rng.chance(1, 3);
+        if short {
+            let (src, bits): (&[&str], usize) = match self.rng.below(5) {
+                0 => (&["\"ff\"", "hex>bitstr"], 8),
+                1 => (&["[", "255", "]", ">bitstr"], 8),
+                2 => (&["\"a5ff\"", "hex>bitstr"], 16),
+                3 => (&["[", "90", "255", "]", ">bitstr"], 16),
+                _ => (&["0xffffff", "24", "uint!"], 24),
+            };
+            self.emits(src);
+            self.emit("open-bitstr");
+            let lo = bits - 7;
+            let n = format!("{}", lo + self.rng.below(7));
+            self.emit(&n);
+            self.emit("bits");
+            self.emit("close-bitstr");
+            self.push(Ty::Bits);
+            return self.orphan_slice_use();
+        }
         self.computed_bits();
         self.pop();
         self.emit("open-bitstr");
@@ -1561,6 +1583,10 @@ impl<'a> Gen<'a> {
         self.emit(if unit_bits { "bits" } else { "bytes" });
         self.emit("close-bitstr");
         self.push(Ty::Bits);
+        self.orphan_slice_use()
+    }
+
+    fn orphan_slice_use(&mut self) {
         match self.rng.below(8) {
             0 | 1 | 2 => {
                 let tail = *self.rng.pick(&["|ff|", "|12 34|", "|x|", "|0|", "|00|"]);
